@@ -533,6 +533,8 @@ type c30Case struct {
 	MLine *int    `json:"mline,omitempty"`
 	Ufrag *string `json:"ufrag,omitempty"`
 	State string  `json:"state,omitempty"` // "have-remote-offer" | "stable"
+	// rtp
+	Shape *int `json:"shape,omitempty"` // nil: all shapes
 	// key parts
 	Op   string `json:"op"`
 	Kind string `json:"kind"`
@@ -1164,7 +1166,7 @@ func c30Worker(t *testing.T, spec string) {
 		return
 	}
 	if spec == "rtp" {
-		c30RTPWorker(t, logw, c30Case{Part: "rtp", Sem: -1})
+		c30RTPWorker(t, logw, c30Case{Part: "rtp"})
 		logw("DONE")
 
 		return
@@ -1429,8 +1431,22 @@ func (p *c30Parent) runBatch(w, nw int, results chan<- c30Result, crashes chan<-
 	}
 }
 
+// c30OpClass coarsens the operator to the class used in violation keys.
+func c30OpClass(op string) string {
+	switch c30OpBase(op) {
+	case "val", "tok":
+		return "value"
+	case "del", "dup", "swap", "trunc":
+		return "line"
+	case "fdel", "fren":
+		return "family"
+	}
+
+	return c30OpBase(op)
+}
+
 func c30Key(kind string, site string, cs c30Case) string {
-	return kind + "|" + site + "|" + cs.Part + ":" + c30OpBase(cs.Op)
+	return kind + "|" + site + "|" + cs.Part + ":" + c30OpClass(cs.Op)
 }
 
 func (p *c30Parent) account(cs c30Case, outcome string) {
@@ -1667,8 +1683,453 @@ func TestVerifC30(t *testing.T) { //nolint:cyclop
 }
 
 // ---------------------------------------------------------------------------------------------
-// part C: RTP / RTCP from a connected peer (stub)
+// part C: RTP / RTCP from a connected peer
+//
+// ONE real pair over loopback (A = hostile peer, B = connection under test). The packets are built
+// byte by byte, protected with A's SRTP keys (own srtp.Context, so the exact bytes travel) and
+// written to A's SRTP/SRTCP mux endpoints. After every shape a sentinel packet on A's declared
+// audio SSRC must come out of B's TrackRemote (event wait; liveness guard -> VERIF-ERROR).
 
-func c30RTPWorker(t *testing.T, logw func(string, ...any), cs c30Case) {}
+type c30Shape struct {
+	fam     string
+	pt      byte
+	cc      int
+	hasExt  bool
+	prof    uint16
+	ext     []byte
+	payload []byte
+	pad     int // -1: no padding bit; otherwise the value of the trailing pad-count byte
+	padLen  int // bytes appended (>= 1 when pad >= 0)
+	ssrc0   bool
+	rtcp    []byte // non-nil: an RTCP shape (sent to the SRTCP endpoint)
+}
 
-func c30RTPAccount(c *vkit.Check, t *testing.T, r c30Run) {}
+func c30RTPRaw(sh c30Shape, ssrc uint32, seq uint16) []byte {
+	b0 := byte(0x80) | byte(sh.cc&15)
+	if sh.hasExt {
+		b0 |= 0x10
+	}
+	if sh.pad >= 0 {
+		b0 |= 0x20
+	}
+	out := []byte{b0, sh.pt, byte(seq >> 8), byte(seq), 0, 0, byte(seq >> 8), byte(seq),
+		byte(ssrc >> 24), byte(ssrc >> 16), byte(ssrc >> 8), byte(ssrc)}
+	for i := 0; i < sh.cc; i++ {
+		out = append(out, 0, 0, 0, byte(i+1))
+	}
+	if sh.hasExt {
+		words := (len(sh.ext) + 3) / 4
+		out = append(out, byte(sh.prof>>8), byte(sh.prof), byte(words>>8), byte(words))
+		out = append(out, sh.ext...)
+		for k := len(sh.ext); k < words*4; k++ {
+			out = append(out, 0)
+		}
+	}
+	out = append(out, sh.payload...)
+	if sh.pad >= 0 {
+		for k := 1; k < sh.padLen; k++ {
+			out = append(out, 0)
+		}
+		out = append(out, byte(sh.pad))
+	}
+
+	return out
+}
+
+func c30Ext1(id int, v string) []byte { // RFC 8285 one-byte element (1..16 bytes)
+	return append([]byte{byte(id<<4) | byte(len(v)-1)}, v...)
+}
+
+func c30Ext2(id int, v string) []byte { // two-byte element (0..255 bytes)
+	return append([]byte{byte(id), byte(len(v))}, v...)
+}
+
+// c30RTPShapes enumerates the header shapes. midID/ridID/rridID are the extension ids B
+// negotiated, mid the mid of B's simulcast video section.
+func c30RTPShapes(midID, ridID, rridID int, mid string) []c30Shape {
+	var out []c30Shape
+	pay := [][]byte{{}, {1}, {1, 2}, {1, 2, 3, 4, 5, 6, 7, 8, 9, 10}}
+	// group 1: no extension: payload type x CSRC count x payload / padding
+	for _, pt := range []byte{111, 96, 97, 127, 0} {
+		for _, cc := range []int{0, 15} {
+			for _, pl := range pay {
+				out = append(out, c30Shape{fam: "plain", pt: pt, cc: cc, payload: pl, pad: -1})
+			}
+			out = append(out,
+				c30Shape{fam: "padding-only", pt: pt, cc: cc, pad: 4, padLen: 4},
+				c30Shape{fam: "padding-only", pt: pt, cc: cc, pad: 1, padLen: 1},
+				c30Shape{fam: "padding-bad-count", pt: pt, cc: cc, pad: 0, padLen: 1},
+				c30Shape{fam: "padding-bad-count", pt: pt, cc: cc, payload: []byte{1, 2}, pad: 255, padLen: 1},
+			)
+		}
+	}
+	// group 2: mid / rid / rrid extension values, one-byte and two-byte profiles
+	vals := []string{mid, "q", "zz", "abc", "\xff\xfe\xfd", strings.Repeat("m", 16), "", strings.Repeat("r", 255)}
+	valName := []string{"mid", "rid", "unknown", "odd-length", "invalid-utf8", "len16", "empty", "len255"}
+	type combo struct {
+		name string
+		ids  func(v string) [][2]any
+	}
+	combos := []combo{
+		{"mid=v", func(v string) [][2]any { return [][2]any{{midID, v}} }},
+		{"rid=v", func(v string) [][2]any { return [][2]any{{ridID, v}} }},
+		{"rrid=v", func(v string) [][2]any { return [][2]any{{rridID, v}} }},
+		{"mid+rid=v", func(v string) [][2]any { return [][2]any{{midID, mid}, {ridID, v}} }},
+		{"mid+rrid=v", func(v string) [][2]any { return [][2]any{{midID, mid}, {rridID, v}} }},
+		{"mid=v+rid", func(v string) [][2]any { return [][2]any{{midID, v}, {ridID, "q"}} }},
+		{"id14=v", func(v string) [][2]any { return [][2]any{{14, v}} }},
+	}
+	for _, two := range []bool{false, true} {
+		for _, cb := range combos {
+			for vi, v := range vals {
+				if !two && (len(v) == 0 || len(v) > 16) {
+					continue
+				}
+				var ext []byte
+				for _, e := range cb.ids(v) {
+					id, _ := e[0].(int)
+					val, _ := e[1].(string)
+					if two {
+						ext = append(ext, c30Ext2(id, val)...)
+					} else if len(val) >= 1 && len(val) <= 16 {
+						ext = append(ext, c30Ext1(id, val)...)
+					}
+				}
+				prof := uint16(0xBEDE)
+				pname := "one-byte"
+				if two {
+					prof = 0x1000
+					pname = "two-byte"
+				}
+				for _, pt := range []byte{96, 97} {
+					for _, pl := range pay[:3] {
+						out = append(out, c30Shape{
+							fam: "ext:" + pname + ":" + cb.name + ":" + valName[vi], pt: pt, hasExt: true, prof: prof, ext: ext,
+							payload: pl, pad: -1,
+						})
+					}
+				}
+			}
+		}
+	}
+	// group 3: unknown / degenerate extension blocks
+	for _, pt := range []byte{96, 127} {
+		out = append(out,
+			c30Shape{fam: "ext:unknown-profile", pt: pt, hasExt: true, prof: 0xABCD, ext: nil, payload: []byte{1}, pad: -1},
+			c30Shape{fam: "ext:unknown-profile", pt: pt, hasExt: true, prof: 0xABCD, ext: []byte{1, 2, 3, 4}, payload: []byte{1}, pad: -1},
+			c30Shape{fam: "ext:unknown-profile", pt: pt, hasExt: true, prof: 0xABCD, ext: make([]byte, 12), pad: -1},
+			c30Shape{fam: "ext:one-byte:empty-block", pt: pt, hasExt: true, prof: 0xBEDE, payload: []byte{1}, pad: -1},
+			c30Shape{fam: "ext:one-byte:id15", pt: pt, hasExt: true, prof: 0xBEDE, ext: []byte{0xF0, 1, 0, 0}, payload: []byte{1}, pad: -1},
+			c30Shape{fam: "ext:one-byte:length-overrun", pt: pt, hasExt: true, prof: 0xBEDE, ext: []byte{byte(midID<<4) | 0x0F, 'a', 'b', 'c'}, payload: []byte{1}, pad: -1},
+			c30Shape{fam: "ext:two-byte:length-overrun", pt: pt, hasExt: true, prof: 0x1000, ext: []byte{byte(midID), 200, 'a', 'b'}, payload: []byte{1}, pad: -1},
+			c30Shape{fam: "ext:two-byte:empty-block", pt: pt, hasExt: true, prof: 0x1000, pad: -1},
+		)
+	}
+	// group 4: SSRC 0 (bandwidth probe path)
+	for _, pt := range []byte{96, 97, 127} {
+		out = append(out, c30Shape{fam: "ssrc0", pt: pt, payload: []byte{1, 2}, pad: -1, ssrc0: true},
+			c30Shape{fam: "ssrc0", pt: pt, pad: 8, padLen: 8, ssrc0: true})
+	}
+	// group 5: RTCP shapes (the SSRC of the packet sender is patched in at bytes 4..8)
+	rt := func(fam string, b ...byte) { out = append(out, c30Shape{fam: "rtcp:" + fam, rtcp: b}) }
+	rt("rr-empty", 0x80, 201, 0, 1, 0, 0, 0, 0)
+	rt("rr-count31-no-blocks", 0x9F, 201, 0, 1, 0, 0, 0, 0)
+	rt("sr-short", 0x80, 200, 0, 1, 0, 0, 0, 0)
+	rt("sr-count31", 0x9F, 200, 0, 6, 0, 0, 0, 0, 0, 0, 0, 0, 0, 0, 0, 0, 0, 0, 0, 0, 0, 0, 0, 0, 0, 0, 0, 0)
+	rt("sdes-item-overrun", 0x81, 202, 0, 2, 0, 0, 0, 0, 1, 200, 'a', 0)
+	rt("sdes-count31", 0x9F, 202, 0, 1, 0, 0, 0, 0)
+	rt("bye-count31", 0x9F, 203, 0, 1, 0, 0, 0, 0)
+	rt("bye-reason-overrun", 0x81, 203, 0, 2, 0, 0, 0, 0, 200, 'x', 0, 0)
+	rt("app", 0x80, 204, 0, 2, 0, 0, 0, 0, 'n', 'a', 'm', 'e')
+	rt("nack-no-fci", 0x81, 205, 0, 2, 0, 0, 0, 0, 0, 0, 0, 1)
+	rt("twcc-truncated", 0x8F, 205, 0, 3, 0, 0, 0, 0, 0, 0, 0, 1, 0, 1, 0xFF, 0xFF)
+	rt("rtpfb-fmt31", 0x9F, 205, 0, 2, 0, 0, 0, 0, 0, 0, 0, 1)
+	rt("pli", 0x81, 206, 0, 2, 0, 0, 0, 0, 0, 0, 0, 1)
+	rt("pli-short", 0x81, 206, 0, 1, 0, 0, 0, 0)
+	rt("fir-no-entry", 0x84, 206, 0, 2, 0, 0, 0, 0, 0, 0, 0, 0)
+	rt("remb-bad-count", 0x8F, 206, 0, 4, 0, 0, 0, 0, 0, 0, 0, 0, 'R', 'E', 'M', 'B', 0xFF, 0, 0, 0)
+	rt("psfb-fmt31", 0x9F, 206, 0, 2, 0, 0, 0, 0, 0, 0, 0, 1)
+	rt("type-255", 0x80, 255, 0, 1, 0, 0, 0, 0)
+	rt("type-0", 0x80, 0, 0, 1, 0, 0, 0, 0)
+	rt("xr", 0x80, 207, 0, 2, 0, 0, 0, 0, 4, 0, 0, 0)
+	rt("length-overrun", 0x80, 201, 0xFF, 0xFF, 0, 0, 0, 0)
+	rt("compound-second-overrun", 0x80, 201, 0, 1, 0, 0, 0, 0, 0x81, 202, 0, 50, 0, 0, 0, 0)
+	rt("padding-bit", 0xA0, 201, 0, 2, 0, 0, 0, 0, 0, 0, 0, 4)
+	rt("version-1", 0x40, 201, 0, 1, 0, 0, 0, 0)
+
+	return out
+}
+
+func c30PairAPI(tb testing.TB) *API {
+	lf := logging.NewDefaultLoggerFactory()
+	lf.DefaultLogLevel = logging.LogLevelDisabled
+
+	return vNewAPI(tb, vAPIOpts{
+		media: func(m *MediaEngine) error {
+			if err := m.RegisterDefaultCodecs(); err != nil {
+				return err
+			}
+			if err := ConfigureSimulcastExtensionHeaders(m); err != nil {
+				return err
+			}
+
+			return m.RegisterHeaderExtension(
+				RTPHeaderExtensionCapability{URI: "urn:ietf:params:rtp-hdrext:sdes:mid"}, RTPCodecTypeAudio)
+		},
+		setting: func(s *SettingEngine) {
+			s.LoggerFactory = lf
+			s.SetIncludeLoopbackCandidate(true)
+			s.SetInterfaceFilter(func(n string) bool { return n == "lo" })
+			s.SetNetworkTypes([]NetworkType{NetworkTypeUDP4})
+		},
+	})
+}
+
+const c30RTPGuard = 60 * time.Second
+
+func c30RTPWorker(t *testing.T, logw func(string, ...any), cs c30Case) { //nolint:cyclop
+	wait := func(ch <-chan struct{}, what string) {
+		select {
+		case <-ch:
+		case <-time.After(c30RTPGuard):
+			vkit.Fatalf(t, "rtp: no %s within %v", what, c30RTPGuard)
+		}
+	}
+	a := vNewPC(t, c30PairAPI(t), nil)
+	b := vNewPC(t, c30PairAPI(t), nil)
+	c30Setup(t, a, "sim") // simulcast video (rids q,h,f) + audio (the sentinel)
+	c30Setup(t, b, "audio")
+	sentinel := make(chan uint16, 1024)
+	var sentinelSSRC uint32
+	for _, s := range a.GetSenders() {
+		if s.Track() != nil && s.Track().Kind() == RTPCodecTypeAudio {
+			sentinelSSRC = uint32(s.GetParameters().Encodings[0].SSRC)
+		}
+	}
+	var ridTracks, otherTracks int64
+	var cmu sync.Mutex
+	b.OnTrack(func(tr *TrackRemote, r *RTPReceiver) {
+		isSentinel := uint32(tr.SSRC()) == sentinelSSRC
+		cmu.Lock()
+		if tr.RID() != "" {
+			ridTracks++
+		} else if !isSentinel {
+			otherTracks++
+		}
+		cmu.Unlock()
+		go func() {
+			for {
+				if _, _, err := r.ReadRTCP(); err != nil && (strings.Contains(err.Error(), "EOF") || strings.Contains(err.Error(), "closed")) {
+					return
+				}
+			}
+		}()
+		go func() {
+			for {
+				p, _, err := tr.ReadRTP()
+				if err != nil {
+					if strings.Contains(err.Error(), "EOF") || strings.Contains(err.Error(), "closed") {
+						return
+					}
+
+					continue
+				}
+				if isSentinel && p.PayloadType == 111 && len(p.Payload) == 3 && p.Payload[0] == 0xC3 {
+					select {
+					case sentinel <- p.SequenceNumber:
+					default:
+					}
+				}
+			}
+		}()
+	})
+	for _, s := range b.GetSenders() {
+		go func(s *RTPSender) {
+			for {
+				if _, _, err := s.ReadRTCP(); err != nil && (strings.Contains(err.Error(), "EOF") || strings.Contains(err.Error(), "closed")) {
+					return
+				}
+			}
+		}(s)
+	}
+	must := func(err error, what string) {
+		if err != nil {
+			vkit.Fatalf(t, "rtp: %s: %v", what, err)
+		}
+	}
+	off, err := a.CreateOffer(nil)
+	must(err, "CreateOffer")
+	ga := GatheringCompletePromise(a)
+	must(a.SetLocalDescription(off), "SetLocalDescription(offer)")
+	wait(ga, "gathering (A)")
+	must(b.SetRemoteDescription(*a.LocalDescription()), "SetRemoteDescription(offer)")
+	ans, err := b.CreateAnswer(nil)
+	must(err, "CreateAnswer")
+	gb := GatheringCompletePromise(b)
+	must(b.SetLocalDescription(ans), "SetLocalDescription(answer)")
+	wait(gb, "gathering (B)")
+	must(a.SetRemoteDescription(*b.LocalDescription()), "SetRemoteDescription(answer)")
+	wait(a.dtlsTransport.srtpReady, "SRTP on A")
+	wait(b.dtlsTransport.srtpReady, "SRTP on B")
+
+	// A's keys, own protection context
+	cfg := &srtp.Config{Profile: a.dtlsTransport.srtpProtectionProfile}
+	st, ok := a.dtlsTransport.conn.ConnectionState()
+	if !ok {
+		vkit.Fatalf(t, "rtp: no DTLS connection state")
+	}
+	must(cfg.ExtractSessionKeysFromDTLS(&st, a.dtlsTransport.role() == DTLSRoleClient), "ExtractSessionKeysFromDTLS")
+	ctx, err := srtp.CreateContext(cfg.Keys.LocalMasterKey, cfg.Keys.LocalMasterSalt, cfg.Profile)
+	must(err, "CreateContext")
+	sendRTP := func(raw []byte) bool {
+		enc, eerr := ctx.EncryptRTP(nil, raw, nil)
+		if eerr != nil {
+			return false
+		}
+		_, werr := a.dtlsTransport.srtpEndpoint.Write(enc)
+		must(werr, "write SRTP")
+
+		return true
+	}
+	sendRTCP := func(raw []byte) bool {
+		enc, eerr := ctx.EncryptRTCP(nil, raw, nil)
+		if eerr != nil {
+			return false
+		}
+		_, werr := a.dtlsTransport.srtcpEndpoint.Write(enc)
+		must(werr, "write SRTCP")
+
+		return true
+	}
+	var sseq uint16 = 100
+	expectSentinel := func(what string) {
+		// (re)send the sentinel until it comes out of B's track; UDP may drop, B must not stop
+		deadline := time.After(c30RTPGuard)
+		for {
+			sseq++
+			sendRTP(c30RTPRaw(c30Shape{pt: 111, payload: []byte{0xC3, byte(sseq >> 8), byte(sseq)}, pad: -1}, sentinelSSRC, sseq))
+			resend := time.After(500 * time.Millisecond)
+		inner:
+			for {
+				select {
+				case got := <-sentinel:
+					if got == sseq {
+						return
+					}
+				case <-resend:
+					break inner
+				case <-deadline:
+					vkit.Fatalf(t, "rtp: sentinel not delivered within %v %s", c30RTPGuard, what)
+				}
+			}
+		}
+	}
+	midID, _, _ := b.api.mediaEngine.getHeaderExtensionID(RTPHeaderExtensionCapability{URI: "urn:ietf:params:rtp-hdrext:sdes:mid"})
+	ridID, _, _ := b.api.mediaEngine.getHeaderExtensionID(RTPHeaderExtensionCapability{URI: "urn:ietf:params:rtp-hdrext:sdes:rtp-stream-id"})
+	rridID, _, _ := b.api.mediaEngine.getHeaderExtensionID(RTPHeaderExtensionCapability{URI: "urn:ietf:params:rtp-hdrext:sdes:repaired-rtp-stream-id"})
+	mid := ""
+	for _, tr := range b.GetTransceivers() {
+		if tr.Kind() == RTPCodecTypeVideo {
+			mid = tr.Mid()
+		}
+	}
+	if midID == 0 || ridID == 0 || rridID == 0 || mid == "" {
+		vkit.Fatalf(t, "rtp: extension ids %d/%d/%d mid %q not negotiated", midID, ridID, rridID, mid)
+	}
+	expectSentinel("before the first shape")
+	shapes := c30RTPShapes(midID, ridID, rridID, mid)
+	logw("RTPSHAPES %d", len(shapes))
+	sent, unsendable := 0, 0
+	for k, sh := range shapes {
+		if cs.Shape != nil && *cs.Shape != k {
+			continue
+		}
+		logw("R %d %s", k, sh.fam)
+		okSent := false
+		switch {
+		case sh.rtcp != nil:
+			for _, ssrc := range []uint32{sentinelSSRC, 0x31000000 + uint32(k)} { //nolint:gosec
+				raw := append([]byte{}, sh.rtcp...)
+				raw[4], raw[5], raw[6], raw[7] = byte(ssrc>>24), byte(ssrc>>16), byte(ssrc>>8), byte(ssrc)
+				okSent = sendRTCP(raw) || okSent
+			}
+		default:
+			ssrc := 0x30000000 + uint32(k) //nolint:gosec
+			if sh.ssrc0 {
+				ssrc = 0
+			}
+			okSent = sendRTP(c30RTPRaw(sh, ssrc, 1))
+			// let the probe of the undeclared SSRC run to its end: simulcastProbeCount+1 more packets
+			fill := c30Shape{pt: sh.pt, payload: []byte{9}, pad: -1}
+			for q := 0; q <= simulcastProbeCount; q++ {
+				sendRTP(c30RTPRaw(fill, ssrc, uint16(2+q))) //nolint:gosec
+			}
+		}
+		if okSent {
+			sent++
+		} else {
+			unsendable++
+		}
+		expectSentinel(fmt.Sprintf("after shape %d (%s)", k, sh.fam))
+		res := "sent"
+		if !okSent {
+			res = "unsendable"
+		}
+		logw("S %d %s %s", k, sh.fam, res)
+	}
+	c30Quiesce()
+	expectSentinel("after the last shape")
+	cmu.Lock()
+	logw("RTPDONE sent=%d unsendable=%d rid_tracks=%d other_tracks=%d", sent, unsendable, ridTracks, otherTracks)
+	cmu.Unlock()
+	_ = a.Close()
+	_ = b.Close()
+}
+
+// c30RTPAccount turns the log of the RTP worker into evidence / violations.
+func c30RTPAccount(c *vkit.Check, t *testing.T, r c30Run) {
+	lastK, lastFam, done := -1, "", false
+	for _, l := range r.log {
+		f := strings.Fields(l)
+		if len(f) == 0 {
+			continue
+		}
+		switch f[0] {
+		case "R":
+			lastK, _ = strconv.Atoi(f[1])
+			lastFam = f[2]
+		case "S":
+			c.Eval()
+			c.Add("rtp_shapes", 1)
+			if f[3] == "sent" {
+				c.Distinct("rtp|" + f[2])
+				c.Add("rtp_shapes_sent", 1)
+			}
+			lastK = -1
+		case "RTPDONE":
+			done = true
+			c.Set("rtp_summary", strings.Join(f[1:], " "))
+		}
+	}
+	if done && r.exit == 0 {
+		return
+	}
+	if site, msg, ok := c30PanicFromStderr(r.stderr); ok {
+		k := lastK
+		cs := c30Case{Part: "rtp", Shape: &k, Op: c30RTPFamBase(lastFam), Kind: lastFam}
+		c.Violation("panic|"+site+"|rtp:"+c30RTPFamBase(lastFam),
+			fmt.Sprintf("process killed by: %s while (or shortly after) shape %d (%s) from the connected peer was processed", msg, k, lastFam), cs)
+
+		return
+	}
+	vkit.Fatalf(t, "rtp worker ended with status %d (timeout=%v) without a verdict: %s", r.exit, r.timeout, c30Tail(r.stderr, 600))
+}
+
+func c30RTPFamBase(f string) string {
+	p := strings.Split(f, ":")
+	if len(p) > 2 {
+		p = p[:2]
+	}
+
+	return strings.Join(p, ":")
+}
